@@ -178,6 +178,29 @@ Section C19Zones.
   Proof. exact (unparsable_is_error off_of_instant off_of_wall). Qed.
 End C19Zones.
 
+(* ---- "unparsable input yields an error" at Transform level ----------------------------------- *)
+(* Whatever the other members of the object are (lenient twins with the very same arguments
+   before or after it, members coming from templates), a strict member (no ignore_error) whose
+   function is given unparsable input fails the record - for each of the four functions, every
+   zone behaviour and every zone / unit / layout argument; and a record without such a member is
+   delivered, each member present exactly when its own call returns a non-empty value. *)
+Theorem unparsable_strict_member_fails_record :
+  forall off_of_instant off_of_wall fromTZ toTZ u layout_empty layoutTZ tz ms1 ms2,
+    record_outcome (ms1 ++ (false, res_kind (date_time_to_rfc3339 off_of_instant off_of_wall (Some PErr) fromTZ toTZ)) :: ms2) = None
+    /\ record_outcome (ms1 ++ (false, res_kind (date_time_to_epoch off_of_instant off_of_wall (Some PErr) fromTZ u)) :: ms2) = None
+    /\ record_outcome (ms1 ++ (false, res_kind (epoch_to_date_time off_of_instant (Some None) u tz)) :: ms2) = None
+    /\ record_outcome (ms1 ++ (false, res_kind (date_time_layout_to_rfc3339 off_of_instant off_of_wall (Some PErr) layout_empty layoutTZ fromTZ toTZ)) :: ms2) = None.
+Proof.
+  intros oi ow f t u le ltzv tz ms1 ms2.
+  destruct (Proofs.Time.unparsable_is_error oi ow f t u le ltzv tz) as (E1 & E2 & E3 & E4).
+  rewrite E1, E2, E3, E4. simpl. repeat split; apply strict_error_fails_record.
+Qed.
+
+Theorem lenient_or_parsable_record_delivered : forall ms,
+  (forall ig r, In (ig, r) ms -> ig = true \/ r <> RError) ->
+  record_outcome ms = Some (map (fun m => match snd m with RVal _ => true | _ => false end) ms).
+Proof. exact record_outcome_some. Qed.
+
 (* ---- the full statement "the text denotes the same instant in every IANA zone" is false ------- *)
 (* Known finding (sub-minute zone offsets): RFC3339 text prints the offset in whole minutes, so
    in a zone whose offset has a seconds part the instant read back differs.  Witness: the
@@ -242,6 +265,13 @@ Example blank_from_tz_marks_zone :
   date_time_to_rfc3339 (fun _ _ => 0) (fun _ _ => 0) (Some (POk (mkG 1577836800 0 LUTC) false)) TzBlank TzEmpty
   = RVal (ObsZoned 1577836800 0).
 Proof. vm_compute. reflexivity. Qed.
+
+(* lenient twin first, strict twin second, unparsable value: the record fails *)
+Example twins_instance :
+  record_outcome [(true, RError); (false, RError)] = None /\
+  record_outcome [(true, RError); (true, RError)] = Some [false; false] /\
+  record_outcome [(true, RVal tt); (false, RVal tt)] = Some [true; true].
+Proof. repeat split; reflexivity. Qed.
 
 Example layout_empty_input_bad_flag :
   date_time_layout_to_rfc3339 (fun _ _ => 0) (fun _ _ => 0) None false LtzBad TzEmpty TzEmpty = RError.
